@@ -2,6 +2,12 @@
 
 package icmp_spoofer
 
+import (
+	"io"
+	"net"
+	"time"
+)
+
 // Ghost vocabulary of the contract harnesses (build tag verif only).
 // govc gives these functions their logical meaning; the Go bodies are what a
 // replayed counterexample executes.
@@ -132,15 +138,47 @@ func vKeptOrNew(s []byte) bool { return true }
 
 // Ghost wire log: frames handed to the session connection (Conn.WriteTo).
 // vWireCount is how many were sent so far, vWireLast the latest one.
-func vWireCount() int   { return 0 }
-func vWireLast() []byte { return nil }
+//
+// Natively (counterexample replays) the log is filled by verifConn, a recording
+// net.PacketConn the replay builder installs as the session connection.
+func vWireCount() int { return len(verifWire) }
+func vWireLast() []byte {
+	if n := len(verifWire); n > 0 {
+		return verifWire[n-1]
+	}
+	return nil
+}
+
+var verifWire [][]byte
+var verifWirePred func(w []byte) bool
+
+type verifConn struct{}
+
+func (verifConn) ReadFrom(p []byte) (int, net.Addr, error) { return 0, nil, io.EOF }
+func (verifConn) WriteTo(p []byte, addr net.Addr) (int, error) {
+	f := append([]byte(nil), p...)
+	verifWire = append(verifWire, f)
+	if verifWirePred != nil && !verifWirePred(f) {
+		panic(verifFailure{"wire-each", ""})
+	}
+	return len(p), nil
+}
+func (verifConn) Close() error                       { return nil }
+func (verifConn) LocalAddr() net.Addr                { return nil }
+func (verifConn) SetDeadline(t time.Time) error      { return nil }
+func (verifConn) SetReadDeadline(t time.Time) error  { return nil }
+func (verifConn) SetWriteDeadline(t time.Time) error { return nil }
+
+// vSpawned: number of go statements executed so far (ghost). Natively it is not observable and
+// reports -1: write postconditions as  s := vSpawned(); vEnsures(s < 0 || s == s0+1).
+func vSpawned() int { return -1 }
 
 // vModifiesWire declares that the target may send frames.
 func vModifiesWire() {}
 
 // vWireEach: every frame handed to the connection from here to the end of the harness
 // satisfies pred, evaluated in the state at the moment of the send.
-func vWireEach(pred func(w []byte) bool) {}
+func vWireEach(pred func(w []byte) bool) { verifWirePred = pred }
 
 // vFuel sets how many times recursive spec functions are unfolded in this harness (default 1).
 func vFuel(n int) {}
